@@ -43,8 +43,20 @@ Theorem C06_restarts_keep sp t0 off rs1 rs2 :
     /\ (files1 = [] \/ exists closed cur t more, files1 = closed ++ [cur] /\ files2 = closed ++ [cur ++ t] ++ more).
 Proof. exact (numbers_restarts_keep sp t0 off rs1 rs2). Qed.
 
+Require Import FL.Flw.NumDInv FL.Flw.NumDRun FL.Flw.NumDTheorems FL.Flw.NumDRestart.
+(* the same for NumbersDirect naming: with append the newest file is continued, without append the next number is started *)
+Theorem C06_restarts_numbersdirect sp t0 off rs :
+  (N.of_nat (length (runs_ops rs)) <= u32_max)%N ->
+  Forall (fun r => c_spec (fst r) = sp /\ (exists crit, numdcfg (fst r) crit) /\ Forall basic_op (snd r)) rs ->
+  exists files,
+    (forall c, c_spec c = sp -> direct_view c (wfs (s_w (fst (run (sys0 t0 off) (runs_ops rs))))) files)
+    /\ concat files = runs_written rs.
+Proof. exact (numbersdirect_restarts_partial sp t0 off rs). Qed.
+
 Check C06_oracle_sound. Check C06_tail_sound. Check C06_restarts_numbers. Check C06_restarts_keep.
 Print Assumptions C06_restarts_numbers.
 Print Assumptions C06_restarts_keep.
 Print Assumptions C06_oracle_sound.
 Print Assumptions C06_tail_sound.
+Check C06_restarts_numbersdirect.
+Print Assumptions C06_restarts_numbersdirect.
